@@ -115,6 +115,8 @@ def check_C01(chk):
         for pat in ("1", "01", "001", "0101", "2", "02", "002", "012", "0102", "03", "004", "0013"):
             for L in (lens[len(lens) // 2], lens[-1], F.ffs(Sv) + 3 * F.fs(Sv) + 11):
                 cases.append({"id": next(nid), "len": L, "nsend": 1, "nrecv": 0, "nshm": 1, "faults": pat, "level": "platform"})
+        for k in (1, 2):
+            cases.append({"id": next(nid), "len": F.ffs(Sv) + 3 * F.fs(Sv) + 11, "nsend": 0, "nrecv": 0, "nshm": 0, "rintr": k, "level": "platform"})
         jobs.append((bins["default"], S, cases, "default", True))
         if S in (4096, None):
             sub = [dict(c, id=next(nid)) for c in cases if c["level"] != "platform"][:60]
@@ -273,6 +275,11 @@ def check_C18(chk):
         for p in ["1", "01", "011", "0101", "1111", "00100100"]:
             for L in F.shape_lengths(Sv):
                 cases.append({"id": next(nid), "len": L, "nsend": 1, "nrecv": 1, "nshm": 1, "faults": p, "level": "platform"})
+        # the receiver's k-th read of a follow-up fragment is interrupted by a signal (EINTR injected by the shim): the receive may
+        # fail, it must not hand out bytes the transport never wrote
+        for k in (1, 2, 3):
+            for L in F.shape_lengths(Sv)[2:]:
+                cases.append({"id": next(nid), "len": L, "nsend": 1, "nrecv": 0, "nshm": 0, "rintr": k, "level": "platform"})
         for c in cases:
             if c["nsend"] + c["nrecv"] + c["nshm"] > 63:
                 c["nsend"] = 63 - c["nrecv"] - c["nshm"]
